@@ -22,7 +22,7 @@ RULE = (
 )
 TIERS = {"quick": {"shards": 8, "n": 16, "budget_s": 230}, "thorough": {"shards": 16, "n": 600, "budget_s": 2700}}
 FLOOR = {"quick": 40, "thorough": 2000}
-REQUIRED_LABELS = {"quick": ["module-with-unexported-helper", "dry-run", "real-run", "out:populated", "out:absent", "out:empty", "recursive", "blacklist", "sqlalchemy-submodule", "init-reexports-subpackage", "root-lists"], "thorough": []}
+REQUIRED_LABELS = {"quick": ["module-with-unexported-helper", "dry-run", "real-run", "out:populated", "out:absent", "out:empty", "recursive", "blacklist", "sqlalchemy-submodule", "init-reexports-subpackage", "root-lists", "via-cli"], "thorough": []}
 ASSUMPTIONS = [
     "generated trees for black/whitelist cases do not re-export across the list boundary; the clause is checked at the granularity the tool implements (package FQN)",
     "P31: emit kinds pydantic / json_schema / sqlalchemy raise TypeError; for them only 'stays inside the output dir / source untouched / dry-run writes nothing' is checked, which holds whether or not the call raises",
@@ -34,6 +34,7 @@ _counter = [0]
 def init_worker(ctx):
     global cdd, eu
     cdd = hops.load()["cdd"]
+    import cdd.__main__
     import cdd.compound.exmod
     import cdd.compound.exmod_utils as eu
 
@@ -86,6 +87,7 @@ def case_strategy(draw):
         "recursive": draw(st.booleans()),
         "sqlsub": emit.startswith("sqlalchemy") and draw(st.booleans()),
         "emit_as_list": draw(st.booleans()),  # the CLI always passes a list
+        "cli": draw(st.integers(0, 2)) == 0,
         "list": lst if chosen else "none",
         "chosen": chosen,
     }
@@ -141,6 +143,14 @@ def run_exmod(case, pkg, outdir, dry):
     chosen = [pkg + "." + c.replace("/", ".") for c in case["chosen"]]
     try:
         with core.quiet():
+            if case.get("cli"):
+                # the same run through `python -m cdd exmod` (absent lists arrive as None, --no-word-wrap as False)
+                argv = ["exmod", "--module", pkg, "--emit", case["emit"], "--output-directory", outdir, "--target-module-name", "gold"]
+                for c in chosen if case["list"] != "none" else []:
+                    argv += ["--" + case["list"], c]
+                argv += (["--emit-sqlalchemy-submodule"] if case["sqlsub"] else []) + (["--recursive"] if case["recursive"] else []) + (["--dry-run"] if dry else [])
+                cdd.__main__.main(argv)
+                return None
             cdd.compound.exmod.exmod(
                 emit_name=[case["emit"]] if case.get("emit_as_list") else case["emit"], module=pkg, blacklist=chosen if case["list"] == "blacklist" else [], whitelist=chosen if case["list"] == "whitelist" else [],
                 output_directory=outdir, target_module_name="gold", mock_imports=False, emit_sqlalchemy_submodule=case["sqlsub"], extra_modules=None,
@@ -179,6 +189,7 @@ def one(r, case):
     if case["tree"].get("reexport"):
         r.label("init-reexports-subpackage")
     r.label("emit-name:list" if case.get("emit_as_list") else "emit-name:str")
+    r.label("via-cli" if case.get("cli") else "via-api")
     _counter[0] += 1
     root = tempfile.mkdtemp(prefix="c20_", dir="/dev/shm" if os.path.isdir("/dev/shm") else None)
     pkg = "vq%d_%d" % (os.getpid(), _counter[0])
